@@ -418,6 +418,12 @@ func (cfg *Manager) LoadJSON(bs []byte) error {
 	if jcfg.Source != "" {
 		return cfg.LoadJSONFromHTTPSource(jcfg.Source)
 	}
+	if cfg.sourceRedirs == 0 {
+		// A plain configuration (not the body fetched from a
+		// source): forget the source of any earlier load, or the
+		// next save would write that source instead of this.
+		cfg.Source = ""
+	}
 
 	// Load Cluster section. Needs to have been registered
 	if cfg.clusterConfig != nil && jcfg.Cluster != nil {
